@@ -416,7 +416,7 @@ def struct_lits(n, path_suffix):
     out = []
     for x, _ in H.walk(n):
         if x.get("k") == "StructLit":
-            p = H.strip_generics(x["path"].get("path", ""))
+            p = H.strip_generics(x["path"].get("path") or x.get("ty") or "")     # `Self { .. }` has no item path: use its type
             if p == path_suffix or p.endswith("::" + path_suffix):
                 out.append(x)
     return out
